@@ -1027,7 +1027,7 @@ pub fn gen_rare_expr(ch: &mut Choices) -> String {
             1 => format!("Feb 29 {}", ch.pick(&["+1 day", "-1 day", "+2 days", "+7 days"])),
             2 => format!("Feb 29 {wd}"),
             3 => ch.pick(&["Feb 29-Mar 1", "Feb 28-Feb 29", "Feb 29+", "Feb 29-Feb 29 +1 day"]).to_string(),
-            4 => format!("week 53{}", ch.pick(&["", " Su", " Fr", " Mo"])),
+            4 => ch.pick(&["week 53", "week 53 Su", "week 53 Fr", "week 53 Mo", "week 52", "week 50-52", "week 1-52", "week 52-1", "week 51-53", "week 53-1"]).to_string(),
             5 => format!("{} {} {wd}", month_str(ch.pick(&MONTHS)), ch.pick(&[1u8, 25, 31, 29, 13, 15])),
             6 => {
                 let a = ch.pick(&[1900u16, 1999, 2020, 2096, 2100, 9000]);
